@@ -23,6 +23,7 @@ import (
 	"sort"
 	"strconv"
 	"strings"
+	"sync"
 	"syscall"
 	"time"
 
@@ -199,7 +200,7 @@ func (o openOpts) boltOptions() *bolt.Options {
 }
 
 type runner struct {
-	w        *bufio.Writer
+	w        *lockedWriter
 	dir      string // scratch dir for the db file and images
 	path     string
 	db       *bolt.DB
@@ -220,8 +221,26 @@ type runner struct {
 	onIO     func(kind string, off int64, data []byte)
 }
 
+// lockedWriter makes every trace line atomic: a commit running in its own goroutine logs I/O events while the main
+// goroutine may close readers (whose freelist events are logged too).
+type lockedWriter struct {
+	mu sync.Mutex
+	bw *bufio.Writer
+}
+
+func (l *lockedWriter) Write(p []byte) (int, error) {
+	l.mu.Lock()
+	defer l.mu.Unlock()
+	return l.bw.Write(p)
+}
+func (l *lockedWriter) Flush() error {
+	l.mu.Lock()
+	defer l.mu.Unlock()
+	return l.bw.Flush()
+}
+
 func newRunner(w *bufio.Writer, dir string, caseID int) *runner {
-	return &runner{w: w, dir: dir, path: fmt.Sprintf("%s/c%d.db", dir, caseID), rtx: map[int]*bolt.Tx{}, caseID: caseID, imgMode: "none", failAt: -1}
+	return &runner{w: &lockedWriter{bw: w}, dir: dir, path: fmt.Sprintf("%s/c%d.db", dir, caseID), rtx: map[int]*bolt.Tx{}, caseID: caseID, imgMode: "none", failAt: -1}
 }
 
 func (r *runner) res(format string, a ...interface{}) {
